@@ -824,6 +824,7 @@ func (in *Interp) smallModel(neg Term) map[string]string {
 			cs = append(cs, "(bvule "+q+" #x00000008)")
 		case "str":
 			cs = append(cs, "(<= (str.len "+q+") 3)")
+			cs = append(cs, "(str.in_re "+q+" (re.* (re.range \" \" \"~\")))")
 		}
 	}
 	if len(cs) == 0 {
@@ -970,4 +971,18 @@ func minInt(a, b int) int {
 		return a
 	}
 	return b
+}
+
+// niceStrings: prefer instances whose strings are printable ASCII (they survive real JSON/UTF-8 handling unchanged).
+func (in *Interp) niceStrings() string {
+	var cs []string
+	for _, v := range in.vars {
+		if v.Sort == "str" {
+			cs = append(cs, "(str.in_re "+quoteSym(v.Name)+" (re.* (re.range \" \" \"~\")))")
+		}
+	}
+	if len(cs) == 0 {
+		return ""
+	}
+	return "(and true " + strings.Join(cs, " ") + ")"
 }
